@@ -343,11 +343,14 @@ def pkgScan (fs : FS) : List Path → Option Path → Option Path
 
 def pkgTop (fs : FS) (path : Path) : Option Path := pkgScan fs (parentsOf path) none
 
-/-- parts of `path.with_suffix("").relative_to(base)`. -/
-def relStem (base path : Path) : List String :=
-  match (path.drop base.length).getLast? with
-  | some l => (path.drop base.length).dropLast ++ [fileStem l]
+/-- `path.with_suffix("")`. -/
+def withStem (path : Path) : Path :=
+  match path.getLast? with
+  | some l => path.dropLast ++ [fileStem l]
   | none => []
+
+/-- parts of `path.with_suffix("").relative_to(base)`. -/
+def relStem (base path : Path) : List String := (withStem path).drop base.length
 
 /-- module name of `_resolve_pkg_root_and_module_name`. -/
 def pkgKey (pkgRoot path : Path) : ModKey :=
@@ -356,7 +359,7 @@ def pkgKey (pkgRoot path : Path) : ModKey :=
 
 /-- `_module_name_from_path`. -/
 def pathKey (root path : Path) : ModKey :=
-  let parts := if root.isPrefixOf path then relStem root path else relStem [] path
+  let parts := if root.isPrefixOf (withStem path) then relStem root path else withStem path
   (if decide (2 ≤ parts.length) && parts.getLast? == some "__init__" then parts.dropLast else parts).map dotToUnderscore
 
 inductive SpecSrc where
@@ -377,9 +380,20 @@ structure Env where
   cfg : Cfg
   progs : List (Path × Prog)
   preloaded : List ModKey        -- names already in `sys.modules` (interpreter, stdlib)
+  /-- `build(tasks=[…])`: plain functions `(defining file, __name__, body tag)` in the order given. -/
+  ptasks : List (Path × String × Nat) := []
+
+def ptaskObj (f : Path) (n : String) (tag : Nat) : FnObj :=
+  { file := f, fname := n, params := [], defaults := [], tag := tag, marked := true, metaName := n, metaId := none, metaKwargs := [] }
+
+/-- generation 0 is reserved for the function objects handed over through `build(tasks=…)`. -/
+def ptaskHeap : Nat → List (Path × String × Nat) → List (ObjId × FnObj)
+  | _, [] => []
+  | i, (f, n, t) :: rest => ((0, i), ptaskObj f n t) :: ptaskHeap (i + 1) rest
 
 def Env.init (env : Env) : World :=
-  { heap := [], registry := [], modules := env.preloaded.map (fun k => (k, { src := none, ns := [] })), nextGen := 0 }
+  { heap := ptaskHeap 0 env.ptasks, registry := [],
+    modules := env.preloaded.map (fun k => (k, { src := none, ns := [] })), nextGen := 1 }
 
 def loadAs (env : Env) (w : World) (key : ModKey) (src : Path) : World × Module :=
   let r := execFile env.progs env.cfg.root w src
@@ -608,10 +622,19 @@ def failDupsLoop : List (Path × String) → List Report → List Report
 
 def failDups (rs : List Report) : List Report := failDupsLoop [] rs
 
-/-- the steps of `pytask_collect` before `session.tasks` is filled, as listed by the translator. -/
+/-- `_collect_from_tasks` for plain functions: `task()` wraps the function (registering it), the registration is
+removed again, and the function is collected under `(get_file(fn), fn.__name__)`. -/
+def ptaskReports : Nat → List (Path × String × Nat) → List Report
+  | _, [] => []
+  | i, (f, n, _) :: rest => Report.succ f n (0, i) :: ptaskReports (i + 1) rest
+
+/-- `_collect_from_paths`. -/
+def pathReports (env : Env) (enum : List String → List String) : World × List Report :=
+  (notIgnoredPaths env.fs env.cfg.ignored env.cfg.paths).foldl (collectStep env enum) (env.init, [])
+
+/-- the reports of `pytask_collect` before the duplicate-signature pass: paths, programmatic tasks, left-overs. -/
 def rawReports (env : Env) (enum : List String → List String) : World × List Report :=
-  let r := (notIgnoredPaths env.fs env.cfg.ignored env.cfg.paths).foldl (collectStep env enum) (env.init, [])
-  (r.1, r.2 ++ leftovers r.1)
+  ((pathReports env enum).1, (pathReports env enum).2 ++ ptaskReports 0 env.ptasks ++ leftovers (pathReports env enum).1)
 
 def collectReports (env : Env) (enum : List String → List String) : World × List Report :=
   ((rawReports env enum).1,
